@@ -50,6 +50,8 @@ type Options struct {
 	Verbose  bool
 }
 
+var evalCompared int
+
 // CheckProperty runs every harness of a property and returns the exit code.
 func CheckProperty(opt Options) int {
 	start := time.Now()
@@ -74,6 +76,17 @@ func CheckProperty(opt Options) int {
 		if h.WithCmd {
 			withCmd = true
 		}
+	}
+	// the trusted model of go/types.Eval is validated against the real
+	// function on every run of a property that relies on it
+	if spec.UsesEvalModel {
+		nCmp, serr := EvalModelSelfTest(opt.Seed, 600)
+		if serr != nil {
+			fmt.Printf("INCONCLUSIVE property=%s %v\n", opt.Property, serr)
+			writeEvidence(opt, spec, nil, nil, 0, []string{serr.Error()}, time.Since(start).Seconds(), nil)
+			return 2
+		}
+		evalCompared = nCmp
 	}
 	loadStart := time.Now()
 	prog, err := Load(withCmd)
@@ -291,7 +304,7 @@ func CheckProperty(opt Options) int {
 		fmt.Printf("INCONCLUSIVE property=%s %s\n", spec.ID, inc)
 	}
 	wall := time.Since(start).Seconds()
-	writeEvidence(opt, spec, results, known, witnessOK, inconclusive, wall, map[string]float64{"load_s": loadSecs})
+	writeEvidence(opt, spec, results, known, witnessOK, inconclusive, wall, map[string]float64{"load_s": loadSecs, "eval_model_cases_compared_with_go_types": float64(evalCompared)})
 	totalQ, totalS := 0, 0.0
 	for _, r := range results {
 		totalQ += r.Solver.Queries
